@@ -242,12 +242,12 @@ static int prog_pu(rng& r, int size, bool stealing)
         where = where >= 3 ? 2 : where % 2;
         run_on(where, os, [=] {
             rng rr{cs};
-            int ops = 2 + int(rr.below(std::uint32_t(2 + size / 2)));
+            int ops = 3 + int(rr.below(std::uint32_t(3 + size)));
             for (int i = 0; i < ops; ++i)
             {
                 int w = int(rr.below(std::uint32_t(g_n)));
                 if (w == keep) continue;
-                bool susp = rr.below(2) == 0;
+                bool susp = rr.below(5) < 3;
                 if (api(susp ? op_suspend_pu : op_resume_pu, w, rr.below(4) == 0))
                     monitor(std::string("supported operation ") + (susp ? "suspend_processing_unit" : "resume_processing_unit") + " failed");
                 for (std::uint32_t k = rr.below(4); k > 0; --k)
@@ -413,7 +413,9 @@ static int prog_lowprio(rng& r)
         auto s = ex::with_priority(ex::thread_pool_scheduler{g_wp}, pika::execution::thread_priority::low);
         ex::start_detached(ex::schedule(s) | ex::then([=] { body(id, bs, 0); }));
     }
-    return wait_until(all_done);
+    int rc = wait_until(all_done);
+    if (rc != 0) monitor("low priority task stranded while the last worker is suspended");
+    return rc;
 }
 
 int main(int argc, char** argv)
